@@ -750,3 +750,187 @@ Proof. intros q d o cs ig n s r m Hd Hi. unfold step; cbn [inp nl out calls ign 
 Lemma painted_not_expanded_lemma : forall q d o cs ig n s r,
   step q d (mkst (TIdent true s :: r) o cs ig n) = Next (mkst r (TIdent true s :: o) cs ig false).
 Proof. intros. unfold step; cbn [inp nl out calls ign is_punct]. rewrite andb_false_r. reflexivity. Qed.
+
+(* ====================================================================================== *)
+(* Part 3: structure of the results of # and ##                                            *)
+(* ====================================================================================== *)
+
+(* ---------- # ---------- *)
+(* destringizing as C11 6.10.9 words it: backslash-quote becomes a quote, two backslashes one *)
+Fixpoint unesc (s : spelling) : spelling :=
+  match s with
+  | [] => []
+  | c :: r => match r with
+              | c' :: r' => if (c =? bs) && ((c' =? bs) || (c' =? dq)) then c' :: unesc r' else c :: unesc r
+              | [] => [c]
+              end
+  end.
+
+(* a string literal body is closed: no unescaped quote, no dangling backslash *)
+Fixpoint str_closed (s : spelling) : bool :=
+  match s with
+  | [] => true
+  | c :: r => if c =? dq then false
+              else if c =? bs then match r with _ :: r' => str_closed r' | [] => false end
+              else str_closed r
+  end.
+
+Definition plain (s : spelling) : bool := forallb (fun c => negb ((c =? dq) || (c =? bs))) s.
+(* identifiers, numbers and punctuators contain neither a double quote nor a backslash; literals may contain anything *)
+Definition strfy_ok (t : tok) : bool :=
+  match t with TTok KStr _ | TTok KChr _ => true | _ => plain (spell t) end.
+Definition plain_piece (t : tok) : spelling := if is_ws t then [32] else spell t.
+
+Lemma unesc_cons_plain : forall c r, (c =? bs) = false -> unesc (c :: r) = c :: unesc r.
+Proof. intros c r H; cbn [unesc]. destruct r as [|c' r']; [reflexivity|]. rewrite H; reflexivity. Qed.
+
+Lemma unesc_escape_app : forall s r, unesc (escape s ++ r) = s ++ unesc r.
+Proof.
+  induction s as [|c s IH]; intros r; cbn [escape app]; [reflexivity|].
+  destruct ((c =? dq) || (c =? bs)) eqn:E.
+  - cbn [app unesc]. rewrite Nat.eqb_refl. cbn [andb]. rewrite orb_comm, E. rewrite IH. reflexivity.
+  - cbn [app]. apply orb_false_iff in E as [_ E2]. rewrite unesc_cons_plain by exact E2. rewrite IH. reflexivity.
+Qed.
+
+Lemma unesc_plain_app : forall s r, plain s = true -> unesc (s ++ r) = s ++ unesc r.
+Proof.
+  induction s as [|c s IH]; intros r H; cbn [app]; [reflexivity|].
+  cbn in H. apply andb_true_iff in H as [H1 H2]. apply negb_true_iff, orb_false_iff in H1 as [_ H1].
+  rewrite unesc_cons_plain by exact H1. rewrite IH by exact H2. reflexivity.
+Qed.
+
+Lemma str_closed_escape_app : forall s r, str_closed (escape s ++ r) = str_closed r.
+Proof.
+  induction s as [|c s IH]; intros r; cbn [escape app]; [reflexivity|].
+  destruct ((c =? dq) || (c =? bs)) eqn:E.
+  - cbn [app str_closed]. cbn. apply IH.
+  - cbn [app str_closed]. apply orb_false_iff in E as [E1 E2]. rewrite E1, E2. apply IH.
+Qed.
+
+Lemma str_closed_plain_app : forall s r, plain s = true -> str_closed (s ++ r) = str_closed r.
+Proof.
+  induction s as [|c s IH]; intros r H; cbn [app]; [reflexivity|].
+  cbn in H. apply andb_true_iff in H as [H1 H2]. apply negb_true_iff, orb_false_iff in H1 as [E1 E2].
+  cbn [str_closed]. rewrite E1, E2. apply IH; exact H2.
+Qed.
+
+(* C11 6.10.3.2p2: the result of # is ONE well-formed character string literal -- every double quote and backslash of a
+   string literal or character constant of the argument is escaped, each run of white space between the
+   argument's tokens is one space -- and it spells the argument: destringizing gives back the spelling of
+   the argument's tokens. *)
+Lemma stringify_spec : forall ts, forallb strfy_ok ts = true ->
+  exists body, stringify_toks ts = TTok KStr (dq :: body ++ [dq]) /\
+               str_closed body = true /\ unesc body = flat_map plain_piece ts.
+Proof.
+  intros ts H. exists (flat_map str_piece ts). split; [reflexivity|].
+  induction ts as [|t ts IH]; [split; reflexivity|].
+  cbn in H. apply andb_true_iff in H as [Ht Hts]. destruct (IH Hts) as [I1 I2]. cbn [flat_map].
+  unfold str_piece at 1, plain_piece at 1. unfold str_piece at 2.
+  destruct (is_ws t) eqn:Ew.
+  - split; [cbn; exact I1|]. change ([32] ++ flat_map str_piece ts) with (32 :: flat_map str_piece ts).
+    rewrite unesc_cons_plain by reflexivity. rewrite I2. reflexivity.
+  - destruct t as [p s|k s| | | | | | |]; cbn in Ew; try discriminate;
+      try (cbn [spell]; split; [exact I1|rewrite I2; reflexivity]);
+      try (cbn [strfy_ok spell] in Ht; split; [rewrite str_closed_plain_app by exact Ht; exact I1
+                                              |rewrite unesc_plain_app by exact Ht; rewrite I2; reflexivity]).
+    destruct k; cbn [strfy_ok spell] in Ht |- *;
+      try (split; [rewrite str_closed_plain_app by exact Ht; exact I1
+                  |rewrite unesc_plain_app by exact Ht; rewrite I2; reflexivity]);
+      (split; [rewrite str_closed_escape_app; exact I1|rewrite unesc_escape_app, I2; reflexivity]).
+Qed.
+
+(* ---------- ## ---------- *)
+Definition is_rdblno (t : tok) : bool := match t with TRDblNo => true | _ => false end.
+
+Lemma classify_spell : forall s t, classify s = Some t -> spell t = s /\ is_rdblno t = false /\ is_plm t = false /\ is_ws t = false.
+Proof.
+  intros s t H; unfold classify in H. destruct s as [|c r]; [discriminate|].
+  repeat match type of H with context [if ?b then _ else _] => destruct b end; try discriminate; inversion H; subst; cbn; auto.
+Qed.
+
+(* the token made by ## is spelled as its operands put together *)
+Lemma token_concat_spell : forall a b t, token_concat a b = Some t -> spell t = spell a ++ spell b.
+Proof. intros a b t H; unfold token_concat in H. apply classify_spell in H; tauto. Qed.
+
+(* a property of tokens that placemarkers and pasted tokens have is kept by do_concat's loop *)
+Lemma dc_pres : forall (P : tok -> bool), P TPlm = true ->
+  (forall a b t, token_concat a b = Some t -> P t = true) ->
+  forall n todo done l, length todo <= n ->
+    forallb (fun t => P t || is_rdblno t) todo = true -> forallb P done = true ->
+    dc todo done = Some l -> forallb P l = true.
+Proof.
+  intros P Hplm Hcat. induction n as [|n IH]; intros todo done l Hn Ht Hd H.
+  - destruct todo; [|cbn in Hn; lia]. cbn in H; inversion H; subst; assumption.
+  - destruct todo as [|t todo]; [cbn in H; inversion H; subst; assumption|].
+    cbn in Hn. cbn [forallb] in Ht. apply andb_true_iff in Ht as [Ht1 Ht2].
+    assert (Hsk : forall x, forallb (fun t => P t || is_rdblno t) x = true -> forallb (fun t => P t || is_rdblno t) (skip1 x) = true).
+    { intros [|w x] Hx; cbn; [reflexivity|]. destruct (is_ws w); [cbn in Hx; apply andb_true_iff in Hx; tauto|exact Hx]. }
+    assert (Hsk' : forall x, forallb P x = true -> forallb P (skip1 x) = true).
+    { intros [|w x] Hx; cbn; [reflexivity|]. destruct (is_ws w); [cbn in Hx; apply andb_true_iff in Hx; tauto|exact Hx]. }
+    assert (Hother : is_rdblno t = false -> dc todo (t :: done) = Some l -> forallb P l = true).
+    { intros Hr H'. eapply IH; [| | |exact H']; [lia|exact Ht2|]. cbn. rewrite Hr, orb_false_r in Ht1. rewrite Ht1; exact Hd. }
+    destruct t; cbn [dc] in H; try (apply Hother; [reflexivity|exact H]). clear Hother.
+    pose proof (Hsk' _ Hd) as Hd1.
+    remember (skip1 done) as sd eqn:Esd. destruct sd as [|tj r]; [discriminate|].
+    cbn in Hd1. apply andb_true_iff in Hd1 as [Hj Hr].
+    pose proof (Hsk _ Ht2) as Hl1. pose proof (skip1_length todo) as Hlen.
+    remember (skip1 todo) as st eqn:El. destruct st as [|tk l2]; [discriminate|].
+    cbn in Hl1. apply andb_true_iff in Hl1 as [Hk Hl2]. cbn in Hlen.
+    pose proof (skip1_length l2). pose proof (Hsk _ Hl2). pose proof (Hsk' _ Hr).
+    destruct (is_plm tk).
+    + destruct (is_plm tj).
+      * eapply IH; [| | |exact H]; [lia|assumption|cbn; rewrite Hplm; assumption].
+      * eapply IH; [| | |exact H]; [lia|assumption|cbn; rewrite Hj; assumption].
+    + destruct (is_plm tj).
+      * eapply IH; [| | |exact H]; [cbn; lia|cbn; rewrite Hk; assumption|assumption].
+      * destruct (token_concat tk tj) as [t'|] eqn:Ec; [|discriminate].
+        eapply IH; [| | |exact H]; [lia|assumption|]. cbn. rewrite (Hcat _ _ _ Ec). assumption.
+Qed.
+
+(* whatever the buffer: the result of do_concat contains no ## and no placemarker any more *)
+Lemma do_concat_no_paste_left : forall l l', do_concat l = Some l' ->
+  forallb (fun t => negb (is_rdblno t) && negb (is_plm t)) l' = true.
+Proof.
+  intros l l' E; unfold do_concat in E. destruct (dc (rev l) []) as [x|] eqn:D; [|discriminate]. inversion E; subst.
+  assert (Hx : forallb (fun t => negb (is_rdblno t)) x = true).
+  { apply (dc_pres (fun t => negb (is_rdblno t)) eq_refl) with (n := length (rev l)) (todo := rev l) (done := []);
+      [|apply le_n| |reflexivity|exact D].
+    - intros a b t H. unfold token_concat in H. apply classify_spell in H. destruct H as [_ [H _]]. rewrite H; reflexivity.
+    - clear. induction (rev l) as [|t r IH]; [reflexivity|]. cbn. rewrite IH. destruct t; reflexivity. }
+  clear D E. induction x as [|t x IH]; [reflexivity|]. cbn in Hx. apply andb_true_iff in Hx as [H1 H2].
+  cbn. rewrite (IH H2). destruct t; cbn in *; try discriminate; reflexivity.
+Qed.
+
+(* a buffer without ## is only copied (placemarkers cannot be there: they are made for ## operands only) *)
+Lemma dc_no_paste : forall todo done, forallb (fun t => negb (is_rdblno t)) todo = true -> dc todo done = Some (rev todo ++ done).
+Proof.
+  induction todo as [|t todo IH]; intros done H; [reflexivity|].
+  cbn in H. apply andb_true_iff in H as [H1 H2].
+  destruct t; cbn [dc]; try discriminate; rewrite IH by exact H2; cbn; rewrite <- app_assoc; reflexivity.
+Qed.
+Lemma do_concat_no_paste : forall l, forallb (fun t => negb (is_rdblno t) && negb (is_plm t)) l = true -> do_concat l = Some l.
+Proof.
+  intros l H. unfold do_concat. rewrite dc_no_paste.
+  - rewrite rev_involutive, app_nil_r. f_equal. induction l as [|t l IH]; [reflexivity|].
+    cbn in H. apply andb_true_iff in H as [H1 H2]. cbn. rewrite (IH H2). destruct t; cbn in *; try discriminate; reflexivity.
+  - rewrite forallb_forall in *. intros x Hx. apply in_rev in Hx. specialize (H x Hx). apply andb_true_iff in H; tauto.
+Qed.
+
+(* the algebra of one ## (C11 6.10.3.3p2-3): a placemarker operand disappears, two of them make one
+   (which ends as nothing), two tokens are put together *)
+Definition ord (t : tok) : bool := negb (is_rdblno t) && negb (is_plm t) && negb (is_ws t).
+Lemma paste_two : forall a b, ord a = true -> ord b = true ->
+  do_concat [a; TRDblNo; b] = match token_concat a b with Some t => Some [t] | None => None end.
+Proof.
+  intros a b Ha Hb. unfold do_concat. cbn [rev app].
+  destruct b; cbn in Hb; try discriminate; cbn [dc skip1 is_ws];
+    destruct a; cbn in Ha; try discriminate; cbn [is_plm is_ws skip1];
+    destruct (token_concat _ _) as [t|] eqn:E; try reflexivity;
+    cbn; apply classify_spell in E; destruct E as [_ [_ [E _]]]; destruct t; cbn in *; try discriminate; reflexivity.
+Qed.
+Lemma paste_right_empty : forall a, ord a = true -> do_concat [a; TRDblNo; TPlm] = Some [a].
+Proof. intros a Ha. unfold do_concat. destruct a; cbn in Ha; try discriminate; reflexivity. Qed.
+Lemma paste_left_empty : forall b, ord b = true -> do_concat [TPlm; TRDblNo; b] = Some [b].
+Proof. intros b Hb. unfold do_concat. destruct b; cbn in Hb; try discriminate; reflexivity. Qed.
+Lemma paste_both_empty : do_concat [TPlm; TRDblNo; TPlm] = Some [TSp].
+Proof. reflexivity. Qed.
